@@ -62,7 +62,7 @@ def judge_request(rep, op, args, obs, idx, tag, method="POST", reverse=False, vi
         if not supplied:
             continue
         if p["loc"] == "query":
-            exp_q += [[p["n"], "x"], [p["n"], "y"]] if p["kind"] == "list" else [[p["n"], WIRE[p["kind"]]]]
+            exp_q += [[p["n"], "x"], [p["n"], "y"]] if p["kind"] in ("list", "listform") else [[p["n"], WIRE[p["kind"]]]]
         elif p["loc"] == "header":
             exp_h[p["n"].lower()] = WIRE[p["kind"]]
         elif p["loc"] == "cookie":
@@ -248,8 +248,9 @@ def families(rep, d) -> None:
     # parameters named like the locals / arguments of the generated function (Names.tla's ReservedParams), with a request body and WITHOUT
     # path-item parameters (the conflict check then runs only once, before the bodies are attached)
     resv = []
-    for rn in ("headers", "params", "cookies", "body", "client", "url"):
-        for loc in ("query", "header", "cookie"):
+    # ... and like the headers OpenAPI tells generators to ignore AS HEADER PARAMETERS (Accept, Content-Type, Authorization): elsewhere they are ordinary
+    for rn in ("headers", "params", "cookies", "body", "client", "url", "accept", "Accept", "content-type", "Content-Type", "authorization"):
+        for loc in (("query", "header", "cookie") if rn.islower() and "-" not in rn and rn not in ("accept", "authorization") else ("query", "cookie")):
             k += 1
             rid = 9500 + k
             paths[f"/resv{rid}/end"] = {"post": {"operationId": f"resv{rid}", "tags": ["t"], "parameters": [{"name": rn, "in": loc, "required": True, "schema": endpoint.S}],
